@@ -331,6 +331,33 @@ def facet_basis_normals(ctx, name, m, rng):
                 'normal_of_FacetBasis': n[:, k, l].tolist(), 'independent_normal_from_facet_tangents': nu[:, k, l].tolist()})
 
 
+def ctor_tind(ctx, name, m, rng):
+    """MappingAffine(mesh, tind=T) (subset fixed at construction, 'memory optimisation') must deliver, cell by cell in the order
+    of T (also unsorted / with repetitions), what the mapping of the whole mesh delivers for tind=T"""
+    from skfem.mapping import MappingAffine
+    dim, nt = m.dim(), m.t.shape[1]
+    full = MappingAffine(m)
+    refdom = m.elem.refdom
+    for T in (rng.permutation(nt)[:max(1, nt // 2)].astype(np.int32), rng.choice(nt, size=min(nt, 6), replace=True).astype(np.int32)):
+        sub = MappingAffine(m, tind=T)
+        X = _ref_points(refdom, rng, 3, len(T))
+        d2 = {'mesh': name, 'p': m.p.tolist(), 't': m.t.tolist(), 'tind_given_to_constructor': T.tolist()}
+        ctx.count(('ctor-tind', name, T.tolist()), nontrivial=dim >= 2)
+        try:
+            pairs = [(sub.F(X), full.F(X, tind=T)), (sub.DF(X), full.DF(X, tind=T)), (sub.invDF(X), full.invDF(X, tind=T)),
+                     (sub.detDF(X), full.detDF(X, tind=T))]
+            x = full.F(X, tind=T)
+            pairs.append((sub.invF(x), full.invF(x, tind=T)))
+        except Exception as e:  # noqa: BLE001
+            ctx.fail(f'ctor-tind:{name}', f'MappingAffine(mesh, tind=T) raises {type(e).__name__}: {e}', d2)
+            continue
+        for a, b in pairs:
+            if a.shape != b.shape:
+                ctx.fail(f'ctor-tind:{name}', f'MappingAffine(mesh, tind=T) returns shape {a.shape}, the full mapping with tind=T {b.shape}', d2)
+            else:
+                _check(ctx, 'layouts', f'ctor-tind:{name}', np.abs(a - b).max(), d2)
+
+
 def affine_vs_iso(ctx, name, m, rng):
     from skfem.mapping import MappingAffine, MappingIsoparametric
     dim = m.dim()
@@ -397,6 +424,7 @@ def run(ctx, rng):
                 check_mapping(ctx, name, m, mp, rng, label)
                 if label == 'affine':
                     affine_vs_iso(ctx, name, m, rng)
+                    ctor_tind(ctx, name, m, rng)
                     mi = MappingIsoparametric(m, m.elem(), m.bndelem)
                     check_mapping(ctx, name, m, mi, rng, 'iso')
                 divergence(ctx, name, m, rng)
